@@ -31,6 +31,19 @@ CLAIMED["C18"] = ("encoding full; round trip by correspondence", "6/C18", "Lean 
   "tryLen_longest, toBytes_is_encode, toBytes_fuel, jokerMatch_eq_escape, longest_isLongest. Tie: stream S9 (generated tables with overlapping prefixes, multi-byte codes, ignore suffixes, junk lines x strings with escapes and unknown characters; encode, decode; round trip on unique prefix-free tables as oracle on the real code) and S9-text-in-program (size in layout, table inheritance).",
   "The decode round-trip theorem is not yet proved in Lean (it is checked by the oracle on generated prefix-free tables); table file parsing is a hand-written recogniser of the regex tied by correspondence.")
 
+CLAIMED["C02"] = ("full on the model after the F02 repair; no-spurious-rejection partial", "6/C02", "Lean 4 proof by induction over the emission loop of the passes model (every label / incbin node is emitted at the address the label pass recorded, or emission fails) + per-statement-kind size-agreement lemmas (omega / case analysis) + differential correspondence of the whole pipeline with per-node trace",
+  "C02_labels, label_moved_fails, next_byte_at_label, label_pass_value, data/ascii/text/incbin/implied/relative/sized(suffix)/sized(inferred, same value) size_agree. Tie: whole-pipeline model (scanner+parser+codegen+passes) vs real assembler on generated programs (writes block by block, labels in order, outcome), oracle on the real run: address in the label pass = address at emission for every node, label value = run address; width-unstable and duplicate-label programs must be rejected.",
+  "The global theorem that width-stable programs are never rejected by the check (pass_addresses_agree) is not proved yet; it is exercised by the generated valid programs (none may be rejected).")
+CLAIMED["C03"] = ("full for *= to ROM targets", "6/C03", "Lean 4 proof: loop invariant over Program.emit (flattened own writes = trace laid out at storage offsets), step theorems for *= and @=, storage-offset = mapped-offset invariant via the C04 advance law; differential correspondence of the whole pipeline with per-node trace",
+  "writes_are_trace, star_eq_moves_both, at_eq_moves_logical_only, sync_after_star_eq, sync_step. Tie: whole-pipeline model vs real assembler on generated and position-heavy programs; oracle on the real run: flattened writes = emitted bytes at the offsets selected by *=, offset = Spec mapped offset of the run address while no @= intervenes, bank crossings included.",
+  "`*=` to a RAM bank or below the bank window carries no claim about the offset (DESIGN section 8). Blocks of .include_ips are interleaved by the writer in call order (C13).")
+CLAIMED["C05"] = ("full on the model after the F05 repair", "6/C05", "Lean 4 proof: case analysis of RelativeJumpOpcode.emit (encoding, range, RAM rejection), pc-tracks-run-address invariant over emission (C04 advance law), omega for same-bank displacement; differential correspondence + exhaustive displacement grid",
+  "C05_encode, C05_out_of_range_rejected, C05_source_ram_rejected, C05_target_ram_rejected, pcSync_setPosition/after_position/emit, same_bank_displacement. Tie: branch grid (7 mnemonics x displacements -300..300 x placements x @= ROM/RAM x LoROM/HiROM; complete in thorough) through the real assembler and the model with the displacement oracle; opcode bytes by C01 table_sound.",
+  "Branches across banks and addresses below the bank window carry no claim; a size suffix on a branch is ignored by the code (DESIGN section 8).")
+CLAIMED["C07"] = ("full", "6/C07", "Lean 4 proof (omega/induction: little-endian truncation for every integer and width, decode, sizes) on the node and codegen model + differential correspondence with value oracle",
+  "data_bytes, leBytes_decode, leBytes_length, data_size_agree, ascii_bytes, ascii_size_agree, incbin_bytes, incbin_symbols, gen_data. Tie: whole-pipeline model vs real assembler on data-directive programs (all kinds, boundary/negative/too-wide values, forward/backward labels, incbin of lengths 0..crossing a bank end) with the little-endian oracle on the per-node trace and label-after = start + size.",
+  "Quoted texts without backslash escapes (DESIGN section 8).")
+
 NOT_YET = {}
 
 def main():
